@@ -102,7 +102,11 @@ def main(argv=None):
                     sub.teardown()
             report["complete"] = complete
             for f in found:
-                path = core.write_replay(args.prop, sub.name, f.case, f.violation)
+                v = f.violation
+                if v.replay_case is not None:
+                    path = core.write_replay(args.prop, v.replay_sub or sub.name, v.replay_case, v)
+                else:
+                    path = core.write_replay(args.prop, sub.name, f.case, v)
                 report["found"].append({
                     "signature": f.violation.signature,
                     "message": f.violation.message,
